@@ -12,6 +12,8 @@ from .codec import register
 from .values import UNRELATED, cp, dedup, inject, perturb, value_universe
 
 E = Ellipsis
+NAN = float("nan")
+HUGE = register("int_5001_digits_subst", 10 ** 5000)
 
 
 class _Opaque:
@@ -138,6 +140,16 @@ def subst_values(t, tier, placeholders=True):
     for w in ws[:4]:
         out += _float_leaf_variants(w, (1 + 5e-10, 1 - 5e-10))     # inside the tolerance band
     out += [OPAQUE, (1, 2)]
+    # not-a-number is a float like any other as far as substitution is concerned: alone, and in
+    # place of every node of the first witness
+    out.append(NAN)
+    for w in ws[:1]:
+        out += inject(w, NAN, max_out=12)
+    if placeholders:
+        # C12 ("for any value"): an int beyond CPython's int -> str limit, alone and inside
+        out.append(HUGE)
+        for w in ws[:1]:
+            out += inject(w, HUGE, max_out=8)
     return dedup(out)
 
 
@@ -182,6 +194,8 @@ def carries(v, w, tol=0.1 + 1e-9):
             if k not in w or not carries(v[k], w[k]):
                 return False
         return True
+    if isinstance(v, float) and v != v:
+        return isinstance(w, float) and w != w        # nan is carried by nan
     if isinstance(v, float) and isinstance(w, float):
         # within the documented tolerance: one coarsest grid step absolutely, or math.isclose's
         # own relative band (which is what a pinned float accepts around a huge value)
